@@ -3,6 +3,7 @@ pub mod c03;
 pub mod c09;
 pub mod c10;
 pub mod c14;
+pub mod c16;
 pub mod c17;
 pub mod sigs;
 pub mod c09b;
@@ -10,5 +11,5 @@ pub mod c09b;
 use crate::runner::Check;
 
 pub fn all() -> Vec<Check> {
-    vec![c01::check(), sigs::check_c02(), c03::check(), sigs::check_c06(), c09::check(), c10::check(), c14::check(), c17::check()]
+    vec![c01::check(), sigs::check_c02(), c03::check(), sigs::check_c06(), c09::check(), c10::check(), c14::check(), c16::check(), c17::check()]
 }
